@@ -1,3 +1,5 @@
+import os
+
 from lib.props.meta_common import ASSUME_COMMON
 
 ID = "C08"
@@ -33,7 +35,8 @@ META = dict(
         "ill-conditioned ratios (Tajimas_D, Fst, proportion=True, trait_linear_model near singularity) are compared "
         "only when the reference denominator exceeds 1e-6",
     ],
-    BUDGET={"quick": 50.0, "thorough": 840.0},
+    # C08_THOROUGH_BUDGET: development knob only (shorter trial runs of the thorough tier)
+    BUDGET={"quick": 50.0, "thorough": float(os.environ.get("C08_THOROUGH_BUDGET", 840.0))},
     EXTRA_VARIANTS=["tsan"],
     CASE_TIMEOUT={"quick": 400, "thorough": 900},
     MIN_CASES={"quick": 100, "thorough": 5000},
